@@ -39,7 +39,7 @@ SRC = ["events/events.c", "events/events_immediate.c", "events/events_network.c"
        "util/sock.c", "util/sock_util.c", "util/asprintf.c", "util/warnp.c",
        "datastruct/elasticarray.c", "datastruct/ptrheap.c", "datastruct/timerqueue.c"]
 WRAPS = ["recv", "send", "accept", "connect", "socket", "close", "poll", "getsockopt", "setsockopt",
-         "fcntl", "fcntl64", "malloc", "calloc", "realloc", "free"]
+         "fcntl", "fcntl64", "malloc", "calloc", "realloc", "free", "signal", "__sysv_signal"]
 ASAN_ENV = {"ASAN_OPTIONS": "detect_leaks=1:abort_on_error=0:exitcode=1", "UBSAN_OPTIONS": "halt_on_error=1:exitcode=1"}
 
 
@@ -70,17 +70,48 @@ def lshow(b):
 
 
 # ------------------------------------------------------------------ build / run
-def build(ctx, sub):
+# network_write.c has two build configurations: the one every POSIX.1-2008 host selects (send with
+# MSG_NOSIGNAL) and -DPOSIXFAIL_MSG_NOSIGNAL (platforms without the flag: send with flag 0 between
+# signal(SIGPIPE, SIG_IGN) and a restoring signal(), errno saved over the latter).  The second one
+# is not selected on this machine but compiles and runs here; harness/net_no_msg_nosignal.h makes
+# <sys/socket.h> look as on such a platform.  The write machine of NetRW.v is the function of the
+# send() answers that BOTH configurations have to implement, so both drivers are compared with the
+# one model log and judged by the same predicates.
+CONFIGS = {"default": {},
+           "posixfail": {"network/network_write.c": ["-DPOSIXFAIL_MSG_NOSIGNAL", "-include",
+                                                     __import__("os").path.join(vlib.VERIF, "harness", "net_no_msg_nosignal.h")]}}
+_built = {}
+
+
+def build_driver(ctx, config):
     # one build directory per property: C06 / C07 / C14 may be checked concurrently
-    exe, err = vlib.build_c("drv_net_asan_" + ctx.pid, "drv_net.c", SRC, extra_sources=["wrap_net.c"], wraps=WRAPS, asan=True)
-    if not exe:
-        ctx.fail(sub, "build", "", "C driver does not build: " + (err or "")[-1500:])
-        return None, None
+    name = "drv_net_asan_" + ("" if config == "default" else config + "_") + ctx.pid
+    return vlib.build_c(name, "drv_net.c", SRC, extra_sources=["wrap_net.c"], wraps=WRAPS, asan=True,
+                        per_file_flags=CONFIGS[config])
+
+
+def build(ctx, sub, configs=("default",)):
+    """-> (exe of the default configuration, model exe[, {config: exe}] when more configs are asked for)"""
+    import threading
+    res = {}
+    ths = [threading.Thread(target=lambda c=c: res.__setitem__(c, build_driver(ctx, c))) for c in configs]
+    for t in ths:
+        t.start()
+    for t in ths:
+        t.join()
+    exes = {}
+    for c in configs:
+        exe, err = res.get(c, (None, "build thread died"))
+        if not exe:
+            ctx.fail(sub, "build", "", "C driver (%s configuration) does not build: %s" % (c, (err or "")[-1500:]))
+            return (None, None) if len(configs) == 1 else (None, None, {})
+        exes[c] = exe
     mexe, err = vlib.build_model("net")
     if not mexe:
         ctx.fail(sub, "tie", "", err)
-        return exe, None
-    return exe, mexe
+    if len(configs) == 1:
+        return exes[configs[0]], mexe
+    return exes[configs[0]], mexe, exes
 
 
 def split_impl(line):
@@ -271,13 +302,16 @@ RX_NRC = re.compile(r"^nrc(\d+)$")
 RX_NW = re.compile(r"^(nww|nwr|nwc)(\d+)=(\S+)$")
 
 SIG_CANCEL_LOSS = "netbuf_read.cancel_partial_loss"
+SIG_EOF_LOSS = "netbuf_read.eof_partial_loss"
 
 
 def check_sc(case, toks, allocfail=False):
     """Evaluate the C06 / C07 predicates on the implementation's log (tokens up to 'end').
     Returns (violations, known): violations = list of strings for anything that is wrong and NOT
-    explained by the listed finding; known = description if the only discrepancy is the listed
-    finding 'bytes lost by cancelling a wait after a partial arrival' (strict reading of C07)."""
+    explained by a listed finding; known = list of (signature, description), one entry per finding
+    of the strict reading of C07 that this log exhibits and that explains a discrepancy completely:
+    'bytes lost by cancelling a wait after a partial arrival' (F9) and 'bytes received inside a
+    wait that then ends with EOF / an error are not shown to the application'."""
     bad = []
 
     def V(msg):
@@ -296,7 +330,7 @@ def check_sc(case, toks, allocfail=False):
     expect = None   # ("cb", id, value) | ("fail",) | ("nrcb", status): what the next token must be
     wire = {}       # fd -> bytearray of the bytes the checker believes were handed to send
     nsock = 0
-    known = None
+    known = []
     # buffered reader, as the application is entitled to see it
     nr = {"fd": info["nr_fd"], "wait": None, "visible": bytearray(), "pending": bytearray(), "consumed": 0,
           "ended": False, "imm": False, "lost": 0}
@@ -310,16 +344,25 @@ def check_sc(case, toks, allocfail=False):
             kq[(fd, wr)] = KQ([])
         return kq[(fd, wr)]
 
-    def observe_reader(t, shown):
-        """a peek of the reader: shown = '<len>:<show>'"""
-        nonlocal known
+    def observe_reader(t, shown, tail=b""):
+        """a peek of the reader: shown = '<len>:<show>'.  tail: bytes the kernel delivered inside
+        the wait that is just now reporting EOF / an error; the strict reading of 'exactly the
+        bytes the peer sent up to the point where end-of-stream or an error is reported' wants
+        them shown, the code drops them (network_read reports 0 / -1, not the partial count)."""
         if nr["ended"]:
             return      # after EOF / error nothing more is promised
         lossy = bytes(nr["visible"][nr["consumed"]:])
+        strict = bytes((nr["visible"] + tail)[nr["consumed"]:])
+        if tail and shown == lshow(strict) and strict != lossy:
+            return      # the strict behaviour is of course accepted
         if shown == lshow(lossy):
-            if nr["lost"] > 0 and known is None:
-                known = ("%s: %d byte(s) received by a cancelled wait are missing from the stream the "
-                         "application sees" % (t, nr["lost"]))
+            if nr["lost"] > 0 and not any(k[0] == SIG_CANCEL_LOSS for k in known):
+                known.append((SIG_CANCEL_LOSS, "%s: %d byte(s) received by a cancelled wait are missing from the stream "
+                              "the application sees" % (t, nr["lost"])))
+            if tail and strict != lossy and not any(k[0] == SIG_EOF_LOSS for k in known):
+                known.append((SIG_EOF_LOSS, "%s: the peer sent %d more byte(s) before the end-of-stream / error that this "
+                              "wait reports; the reader received them and does not show them (it shows %s)"
+                              % (t, len(tail), lshow(lossy))))
             return
         V("%s: reader should show the %d unconsumed byte(s) of the peer stream (%s)" % (t, len(lossy), lshow(lossy)))
 
@@ -574,15 +617,18 @@ def check_sc(case, toks, allocfail=False):
             elif expect[1] != st and not (allocfail and st == -1):
                 V("%s: status should be %d" % (t, expect[1]))
             expect = None
+            tail = b""
             if st == 0:
                 nr["visible"] += nr["pending"]
             else:
-                nr["ended"] = True      # EOF / error reported: nothing is promised from here on
+                tail = bytes(nr["pending"])     # arrived inside this wait, before the EOF / error
             nr["pending"] = bytearray()
             nr["wait"] = None
             if st == 0 and ln < k and not nr.get("consumed_in_wait"):
                 V("%s: success reported with %d < %d bytes buffered" % (t, ln, k))
-            observe_reader(t, "%d:%s" % (ln, sh))
+            observe_reader(t, "%d:%s" % (ln, sh), tail)
+            if st != 0:
+                nr["ended"] = True      # EOF / error reported: nothing is promised from here on
             continue
         m = RX_NRC.match(t)
         if m:
@@ -669,15 +715,17 @@ def check_sc(case, toks, allocfail=False):
     return bad, known
 
 
-def extras_ok(extra, status, allocfail=False):
+def extras_ok(extra, status, allocfail=False, config="default"):
     """impl-only tokens after 'end' and the parent's !status tokens -> list of violations"""
     bad = []
     for s in status:
         bad.append({"!LEAK": "LeakSanitizer: memory leaked by this case",
                     "!EXIT1": "sanitizer report (AddressSanitizer / UBSan / leak at exit)",
-                    "!SIG6": "abort (failed assert)"}.get(s, ("%s block(s) allocated by the library are still live after a fatal event-loop "
+                    "!SIG6": "abort (failed assert)",
+                    "!SIG13": "killed by SIGPIPE"}.get(s, ("%s block(s) allocated by the library are still live after a fatal event-loop "
                                                              "error and the library's own exit handlers (leak)" % s[5:]) if s.startswith("!LIVE")
                                                           else "child process died: " + s))
+    kv = {}
     for t in extra:
         if t.startswith("nfds=") and t != "nfds=0":
             bad.append("descriptors still registered with the event loop after cleanup: " + t)
@@ -685,6 +733,25 @@ def extras_ok(extra, status, allocfail=False):
             bad.append("a callback or system call happened after everything was cancelled / completed")
         if t.startswith("cbs=") and int(t[4:]) > 1:
             bad.append("connect callback invoked %s times" % t[4:])
+        if "=" in t and t.split("=")[0] in ("sends", "nosig", "ign", "sigrest"):
+            kv[t.split("=")[0]] = int(t.split("=")[1])
+    # MSG_NOSIGNAL handling: a write to a connection the peer has shut down must not raise SIGPIPE
+    if "sends" in kv:
+        n = kv["sends"]
+        if config == "default":
+            if kv.get("nosig") != n:
+                bad.append("send() called without MSG_NOSIGNAL (%d of %d calls carry the flag): a write to a closed "
+                           "connection would raise SIGPIPE" % (kv.get("nosig", 0), n))
+            if kv.get("sigrest") != 1:
+                bad.append("the SIGPIPE disposition was changed and not put back")
+        else:
+            if kv.get("nosig") != 0:
+                bad.append("the build for platforms without MSG_NOSIGNAL passed the flag to send()")
+            if kv.get("ign") != n:
+                bad.append("send() called while SIGPIPE was not ignored (%d of %d calls protected) on a platform "
+                           "without MSG_NOSIGNAL" % (kv.get("ign", 0), n))
+            if kv.get("sigrest") != 1:
+                bad.append("the SIGPIPE disposition found before send() was not restored afterwards")
     return bad
 
 
@@ -1201,9 +1268,23 @@ def to_plain_mode(case):
     return case if t[0] != "scx" else "sc" + (" " + t[1] if len(t) > 1 else "")
 
 
-def _run(ctx, sub, cases, checker, rule, also_ctx=()):
-    """also_ctx: the (plain) cases that are run a second time over the context transport"""
-    exe, mexe = build(ctx, sub)
+CONFIG_TEXT = {"default": "", "posixfail": " [network_write.c built -DPOSIXFAIL_MSG_NOSIGNAL]"}
+BOTH_CONFIGS = ("; every plain scenario is also run on a second build of the driver with network_write.c compiled "
+                "-DPOSIXFAIL_MSG_NOSIGNAL on a host made to look as if it had no MSG_NOSIGNAL (send flag 0, SIGPIPE "
+                "ignored around send, errno saved over the restoring signal()); the scripted poll()/signal() leave a "
+                "rotating errno behind, so a send() failure classified on a stale errno is visible; flags of every "
+                "send() checked per configuration; same model log for both")
+
+
+def _run(ctx, sub, cases, checker, rule, also_ctx=(), configs=("default",)):
+    """also_ctx: the (plain) cases that are run a second time over the context transport.
+    configs: build configurations of network_write.c the plain cases are run on (the context-mode
+    repeats run on the first one only)."""
+    if len(configs) == 1:
+        exe, mexe = build(ctx, sub)
+        exes = {configs[0]: exe}
+    else:
+        exe, mexe, exes = build(ctx, sub, configs)
     if not exe or not mexe:
         return
     cases = list(cases) + [to_ctx_mode(c) for c in also_ctx]
@@ -1211,49 +1292,70 @@ def _run(ctx, sub, cases, checker, rule, also_ctx=()):
     if rc is not None:
         if not rc:
             return
-        cases = rc
+        cases = list(dict.fromkeys(rc))
     if also_ctx or rc is not None:
         ctx.count(sub + ".mode.plain", sum(1 for c in cases if not c.startswith("scx ")))
         ctx.count(sub + ".mode.context", sum(1 for c in cases if c.startswith("scx ")))
-    impl, st = vlib.run_sharded(exe, cases, env=ASAN_ENV)
-    # one model log per scenario, whatever the transport mode of the implementation run
+    # one model log per scenario, whatever the transport mode / build configuration of the implementation run
     plain = [to_plain_mode(c) for c in cases]
     uniq = list(dict.fromkeys(plain))
-    mout, _ = vlib.run_sharded(mexe, uniq)
+    import threading
+    runs = {}
+
+    def impl_run(cfg, cs):
+        runs[cfg] = vlib.run_sharded(exes[cfg], cs, env=ASAN_ENV)
+
+    per_cfg = {cfg: (cases if (i == 0 or rc is not None) else [c for c in cases if not c.startswith("scx ")])
+               for i, cfg in enumerate(configs)}
+    ths = [threading.Thread(target=impl_run, args=(cfg, per_cfg[cfg])) for cfg in configs]
+    ths.append(threading.Thread(target=lambda: runs.__setitem__("model", vlib.run_sharded(mexe, uniq))))
+    for t in ths:
+        t.start()
+    for t in ths:
+        t.join()
+    mout, _ = runs["model"]
     if len(mout) != len(uniq):
         ctx.fail(sub, "crash", "", "output count mismatch model=%d cases=%d" % (len(mout), len(uniq)))
         return
     mlog = dict(zip(uniq, mout))
-    model = [mlog[c] for c in plain]
-    nd = nk = 0
+    nd = 0
+    nk = {}
     nontrivial = set()
-    for c, a, m in zip(cases, impl, model):
-        core, extra, status = split_impl(a)
-        toks = core.split()
-        viol, known = checker(c, toks, extra)
-        viol = list(viol) + extras_ok(extra, status)
-        nontrivial.add((c.split()[0], re.sub(r"\d+", "#", core)[:400]))
-        if viol:
-            nd += 1
-            if nd <= 4:
-                ctx.fail(sub, "property", c, "; ".join(viol[:3]) + " || impl=" + a[:400], property_fails=True)
-        elif core != m:
-            nd += 1
-            if nd <= 4:
-                ctx.fail(sub, "diff", c, "impl=%s model=%s" % (core[:500], m[:500]), property_fails=False)
-        if known:
-            nk += 1
-            if nk <= 1:
-                ctx.fail(sub, "property", c, known + " || impl=" + a[:300], property_fails=True, signature=SIG_CANCEL_LOSS)
-    if len(impl) != len(cases) or len(model) != len(cases):
-        ctx.fail(sub, "crash", "", "output count mismatch impl=%d model=%d cases=%d" % (len(impl), len(model), len(cases)))
-    for rc, err in st:
-        if rc != 0:
-            ctx.fail(sub, "crash", "", "driver exit rc=%d: %s" % (rc, err[-300:]), property_fails=True)
+    for cfg in configs:
+        ccases = per_cfg[cfg]
+        impl, st = runs[cfg]
+        tag = CONFIG_TEXT.get(cfg, " [" + cfg + "]")
+        if len(configs) > 1:
+            ctx.count(sub + ".config." + cfg, len(ccases))
+        for c, a in zip(ccases, impl):
+            m = mlog[to_plain_mode(c)]
+            core, extra, status = split_impl(a)
+            toks = core.split()
+            viol, known = checker(c, toks, extra)
+            viol = list(viol) + extras_ok(extra, status, config=cfg)
+            nontrivial.add((c.split()[0], re.sub(r"\d+", "#", core)[:400]))
+            if viol:
+                nd += 1
+                if nd <= 4:
+                    ctx.fail(sub, "property", c, "; ".join(viol[:3]) + tag + " || impl=" + a[:400], property_fails=True)
+            elif core != m:
+                nd += 1
+                if nd <= 4:
+                    ctx.fail(sub, "diff", c, "impl%s=%s model=%s" % (tag, core[:500], m[:500]), property_fails=False)
+            for sig, text in (known or []):
+                nk[sig] = nk.get(sig, 0) + 1
+                if nk[sig] <= 1:
+                    ctx.fail(sub, "property", c, text + " || impl=" + a[:300], property_fails=True, signature=sig)
+        if len(impl) != len(ccases):
+            ctx.fail(sub, "crash", "", "output count mismatch impl%s=%d cases=%d" % (tag, len(impl), len(ccases)))
+        for r, err in st:
+            if r != 0:
+                ctx.fail(sub, "crash", "", "driver%s exit rc=%d: %s" % (tag, r, err[-300:]), property_fails=True)
     ctx.count(sub + ".disagreements", nd)
-    if nk:
-        ctx.count("nbr.cancel_partial_loss", nk)
-    ctx.record(sub, cases, nontrivial, rule, samples=[cases[0], cases[-1]])
+    for sig, k in nk.items():
+        ctx.count("nbr." + sig.split(".")[-1], k)
+    allc = [c for cfg in configs for c in per_cfg[cfg]]
+    ctx.record(sub, allc, nontrivial, rule, samples=[cases[0], cases[-1]])
 
 
 def _sc_checker(c, toks, extra):
@@ -1261,7 +1363,7 @@ def _sc_checker(c, toks, extra):
 
 
 def _conn_checker(c, toks, extra):
-    return check_conn(c, toks, extra), None
+    return check_conn(c, toks, extra), []
 
 
 def check_net_rw(ctx):
@@ -1270,7 +1372,8 @@ def check_net_rw(ctx):
          "network_read / network_write requests with (buflen, min) from a boundary list, kernel answers in random "
          "pieces with EAGAIN/EWOULDBLOCK/EINTR bursts, EOF and hard errors at any offset, cancel at chosen instants, "
          "back-to-back requests from inside callbacks, read+write on one descriptor; impl log diffed against the "
-         "extracted model and checked by an independent predicate evaluator; non-trivial = distinct log shape")
+         "extracted model and checked by an independent predicate evaluator; non-trivial = distinct log shape" +
+         BOTH_CONFIGS, configs=("default", "posixfail"))
 
 
 def check_net_connect(ctx):
@@ -1304,7 +1407,7 @@ BOTH_MODES = ("; every scenario is run twice, with the object attached to a desc
 
 
 def check_netbuf_read(ctx):
-    corpus, gen = corpus_cases(("nbr_", "cancel_partial_loss")), gen_nbr(ctx, ctx.n(700, 20000))
+    corpus, gen = corpus_cases(("nbr_", "cancel_partial_loss", "eof_partial_loss")), gen_nbr(ctx, ctx.n(700, 20000))
     _run(ctx, "netbuf_read", corpus + gen, _sc_checker,
          "netbuf reader: wait/peek/consume/cancel scripts (also from inside the wait callback) with k from "
          "{0,1,4095,4096,4097,8192,100000,random} against arrival segmentations down to one byte, EOF and errors at "
@@ -1317,7 +1420,7 @@ def check_netbuf_write(ctx):
     _run(ctx, "netbuf_write", corpus + gen, _sc_checker,
          "netbuf writer: write / reserve+consume with sizes {0,1,4095,4096,4097,8192,100000,random}, partial sends, "
          "retry bursts, transport failure at any position; wire = prefix of concat(writes), fail callback once" +
-         BOTH_MODES, also_ctx=_second_mode(ctx, corpus, gen))
+         BOTH_MODES + BOTH_CONFIGS, also_ctx=_second_mode(ctx, corpus, gen), configs=("default", "posixfail"))
 
 
 SUBCHECKS = {"C06": [check_net_rw, check_net_connect, check_net_accept],
